@@ -116,6 +116,10 @@ struct Case {
     /// 2 = NUL with another foreground, 3 = only the last column is stored (' ' with another foreground)
     #[serde(default)]
     pad_kind: u8,
+    /// the picture starts with the CP437 characters EF BB BF followed by B0 (a lone continuation byte): the file looks like it had a
+    /// byte order mark but is NOT valid UTF-8, so it loads as CP437 on the unchanged tree - the neighbour of the open BOM finding
+    #[serde(default)]
+    bom_hi: bool,
 }
 
 const WORDS: [&[u8]; 48] = [
@@ -259,6 +263,15 @@ fn normalize(c: &Case) -> Norm {
         }
         for (i, b) in [b'o', b';', b'?'].iter().enumerate() {
             rows[0][i] = Cell(*b, 0, 7);
+        }
+    }
+    if c.bom_hi && !c.bom && matches!(fmt, CTRLA | REN | ASC | AVT | PCB) {
+        let r0 = &mut rows[0];
+        while r0.len() < 4 {
+            r0.push(NEUTRAL);
+        }
+        for (i, b) in [0xEFu8, 0xBB, 0xBF, 0xB0].iter().enumerate() {
+            r0[i] = Cell(*b, 7, 0);
         }
     }
     if c.bom && fmt != ATA {
@@ -964,8 +977,8 @@ fn cases(fmt: usize, steer_bom: bool) -> BoxedStrategy<Case> {
     let rep = prop_oneof![2 => Just(0u8), 1 => 1u8..4];
     let words = prop_oneof![3 => Just(Vec::new()), 1 => proptest::collection::vec((any::<u8>(), any::<u8>(), any::<u8>(), fg_col(), bg_col()), 1..=4)];
     let pad_kind = prop_oneof![2 => Just(0u8), 1 => 1u8..4];
-    (0u8..3, alt, bom, rows(w, max_height(fmt)), shape, rep, words, proptest::bool::weighted(0.15), pad_kind)
-        .prop_map(move |(prep, alt, bom, rows, shape, rep, words, utf8ish, pad_kind)| Case { fmt: fmt as u8, prep, alt, bom, rows, shape, rep, utf8ish: utf8ish && !words.is_empty(), words, pad_kind })
+    (0u8..3, alt, bom, rows(w, max_height(fmt)), shape, rep, words, proptest::bool::weighted(0.15), pad_kind, proptest::bool::weighted(0.03))
+        .prop_map(move |(prep, alt, bom, rows, shape, rep, words, utf8ish, pad_kind, bom_hi)| Case { fmt: fmt as u8, prep, alt, bom, rows, shape, rep, utf8ish: utf8ish && !words.is_empty(), words, pad_kind, bom_hi })
         .boxed()
 }
 
@@ -984,6 +997,9 @@ fn minimize(c: &Case) -> Vec<Case> {
     }
     if c.pad_kind != 0 {
         out.push(Case { pad_kind: 0, ..c.clone() });
+    }
+    if c.bom_hi {
+        out.push(Case { bom_hi: false, ..c.clone() });
     }
     if c.utf8ish {
         out.push(Case { utf8ish: false, ..c.clone() });
@@ -1060,7 +1076,7 @@ fn main() {
          0..=width with extra weight on width, width-1, width-2, 1, 0), last row never empty (a 'z' is stored when it would be); cells after the end of a row are either unset or explicit blanks on black (a space in the default or another foreground, NUL, or only the last column stored); \
          characters 0x20..=0x7E, 0x80..=0xFE and the C0 codes 0x01..=0x1F that the format's reader prints as glyphs, minus the format's lead-ins (Avatar, PCBoard, Ctrl-A, Renegade: without BEL LF FF CR ESC and ^V ^Y ^L / '@' / ^A / '|'; ASCII: without BEL BS LF FF CR; \
          ATASCII: 0x01..=0x1A and 0x20..=0x7C, i.e. without ESC, the cursor codes 0x1C..0x1F and 0x7D..0x7F), illegal characters replaced by letters by construction; attributes foreground 0..=15 x background 0..=7 per run, bright foregrounds stored as colour 8..=15, as colour 0..=7 + BOLD flag (as the ANSI parser stores them), alternating, or 8..=15 + BOLD (1/3 of the cases); a quarter of the buffers carry 1..=4 words of one attribute from a dictionary of 48 control-code look-alikes of BBS software / file formats and UTF-8 encodings of CP437 glyphs (15% of those with every other high character replaced, so the whole file is valid UTF-8) \
-         (ASCII: none; ATASCII: normal / inverse); screen preparation None / ClearScreen / Home uniformly; SaveOptions::new() with lossles_output=true; a 1% share of Ctrl-A / Renegade / ASCII buffers starts with the CP437 characters EF BB BF (not generated while the BOM finding is open), and 1% of the ATASCII buffers are a single row starting with inverse 'o;?' (the same bytes) without other inverse cells. \
+         (ASCII: none; ATASCII: normal / inverse); screen preparation None / ClearScreen / Home uniformly; SaveOptions::new() with lossles_output=true; a 1% share of Ctrl-A / Renegade / ASCII buffers starts with the CP437 characters EF BB BF and is otherwise 7-bit (the exact class of the open BOM finding: not generated while it is open), 3% of the buffers of the five CP437 formats start with EF BB BF B0 and keep their high characters (looks like a byte order mark, is not valid UTF-8, loads as CP437), and 1% of the ATASCII buffers are a single row starting with inverse 'o;?' (the same bytes) without other inverse cells. \
          Non-trivial: at least one full-width row or at least 3 attribute changes inside one row; distinct by hash of the case. Failure key = format | first violated clause (char, bg, fg, size, save_err, load_err) of the reduced case | \
          input features the reduced case needs: the features bold_flag_storage, storage_shape, prep_cls/prep_home, utf8_bom_prefix, multirow (no single row and no two joined neighbouring rows fail), explicit_trailing_blanks, full_width_row, empty_row, c0_glyph, high_char, blank_cell, code_like_char (hex digits, X), \
          high_fg, bg_color (ATASCII: inverse), fg_color, long_run (> 3 equal cells), equal_chars are removed greedily in this fixed order; a removal is kept while the case still fails, a feature is named when its removal makes the case pass.",
